@@ -152,3 +152,18 @@ Proof.
         -- apply fix_accepted_window_ordered; assumption.
         -- unfold fix_nth_window; cbn [f_to]. pose proof (Nat2Z.is_nonneg (S i)). change (Z.of_nat 0) with 0. nia.
 Qed.
+(* the model computes in Z, the code in int64: for times within +-2^62 ns (years 1823 .. 2116) and ranges up to 2^62 ns no
+   intermediate or result of the modelled part leaves the int64 range, so there is no wrap-around to model *)
+Definition in_i64 (z : Z) : Prop := - 2 ^ 63 <= z < 2 ^ 63.
+Lemma fix_window_in_int64 : forall d c, 0 < d <= 2 ^ 62 -> - 2 ^ 62 <= f_from c < 2 ^ 62 -> - 2 ^ 62 <= f_to c < 2 ^ 62 ->
+  in_i64 (f_to c - f_from c) /\ in_i64 (Z.quot (f_from c) d * d) /\ in_i64 (Z.quot (f_to c) d * d) /\
+  in_i64 (f_from (fix_window d c)) /\ in_i64 (f_to (fix_window d c)).
+Proof.
+  intros d c D F T. unfold in_i64. cbn [fix_window f_from f_to].
+  assert (P : 2 ^ 63 = 2 * 2 ^ 62) by reflexivity. rewrite P.
+  assert (B : forall a, - 2 ^ 62 <= a < 2 ^ 62 -> - 2 ^ 62 <= Z.quot a d * d < 2 ^ 62).
+  { intros a A. destruct (Z_le_gt_dec 0 a) as [N|N].
+    - pose proof (Z.mul_quot_le a d N ltac:(lia)). pose proof (Z.quot_pos a d N ltac:(lia)). nia.
+    - pose proof (Z.mul_quot_ge a d ltac:(lia) ltac:(lia)). nia. }
+  pose proof (B _ F). pose proof (B _ T). lia.
+Qed.
